@@ -23,7 +23,7 @@ let rec show b = function
     Buffer.add_string b (match k with KRule r -> Printf.sprintf "(N %d" (int_of_n r) | KErrorNode -> "(N error_node" | KParam -> "(N param");
     List.iter (fun c -> Buffer.add_char b ' '; show b c) cs; Buffer.add_char b ')'
 
-let tokerr = function OutOfFuel -> "ERR fuel" | AssertFail -> "ERR AssertionError" | IndexError -> "ERR IndexError" | AttrError -> "ERR AttributeError"
+let tokerr = function OutOfFuel -> "ERR fuel" | AssertFail -> "ERR AssertionError" | IndexError -> "ERR IndexError" | AttrError -> "ERR AttributeError" | Guard -> "ERR Guard"
 let parseerr = function
   | IncompleteInput -> "ERR incomplete" | TooMuchInput -> "ERR toomuch" | PFuel -> "ERR fuel"
   | PAttr -> "ERR AttributeError" | PIndex -> "ERR IndexError"
